@@ -135,7 +135,7 @@ func (ex *Exec) groupIval(g *GroupFacet) *smt.Term {
 	}
 	var t *smt.Term
 	if g.Reduced {
-		t = ex.freshInt("grp", big.NewInt(0), g.Mod.Hi)
+		t = ex.freshInt("grp", big.NewInt(1), g.Mod.Hi) // a unit: never 0
 	} else {
 		t = ex.freshInt("prod", big.NewInt(0), nil)
 	}
